@@ -146,7 +146,7 @@ impl fmt::Display for Game {
 /// This does not correspond 1-1 with truth's filetypes.  For instance, [`Self::Ecl`] and [`Self::Timeline`]
 /// are two distinct instruction sets that both appear in `.ecl` files, while "mission" files (`mission.msg`)
 /// do not have any instruction sets at all.
-#[derive(Debug, Copy, Clone, PartialEq, Eq, Hash)]
+#[derive(Debug, Copy, Clone, PartialEq, Eq, PartialOrd, Ord, Hash)]
 #[derive(enum_map::Enum)]
 pub enum LanguageKey {
     Ecl, Anm, Msg, End, Std, Timeline,
